@@ -39,7 +39,8 @@ def op_strategy(resets=True, gens=True):
     rep = st.tuples(st.just("r"), SIDE, KS)
     noop = st.just(("o",))
     deep = st.tuples(st.just("d"), BIG, SIDE, KS)
-    alts = [(8, prog), (7, deep), (8, near), (3, flat), (3, rep), (1, noop)]
+    redundant = st.tuples(st.just("i"), BIG, SIDE, KS)
+    alts = [(8, prog), (7, deep), (8, near), (4, redundant), (3, flat), (3, rep), (1, noop)]
     if resets:
         alts.append((1, st.just(("x",))))
     if gens:
